@@ -23,7 +23,7 @@ from easynetwork.lowlevel.api_async.backend._asyncio.backend import AsyncIOBacke
 from easynetwork.lowlevel.api_async.endpoints.datagram import AsyncDatagramEndpoint
 from easynetwork.lowlevel.api_sync.endpoints.datagram import DatagramEndpoint
 
-from .. import dgram, zoo
+from .. import dgram, mutate, zoo
 from ..core import Check, HarnessError, Inconclusive, Layer, Outcome, Violation
 
 MAX_DGRAM = 2048
@@ -36,7 +36,7 @@ UDP_WAIT_S = 2.0  # only ever turns into Inconclusive
 
 @st.composite
 def st_case(draw: st.DrawFn, tier: str, layer: str) -> dict:
-    spec = draw(dgram.st_datagram_spec())
+    spec = mutate.pickle_policy(draw(dgram.st_datagram_spec()))
     pk = zoo.st_packet(spec)
     if spec.get("conv"):
         # valid packets are packets the (harness) converter accepts; refused ones are the "marked" recipe below
@@ -137,6 +137,11 @@ class Plan:
                     raise HarnessError(k)
             if not isinstance(d, bytes):
                 raise Violation("send-type", f"serialize() returned {type(d).__name__}", **self.info)
+            if k != "valid" and mutate.scans_as_pickle(self.spec) and mutate.pickle_put_index_max(d) > mutate.PICKLE_MEMO_INDEX_MAX:
+                # memo-array bomb of CPython's C unpickler (stdlib resource exhaustion, out of the domain): replaced by a
+                # harmless truncated pickle, see mutate.pickle_put_index_max
+                d = b"N"
+                self.classes.add("excluded-pickle-memo-index")
             if len(d) > MAX_DGRAM * 4:
                 raise HarnessError(f"datagram of {len(d)} bytes generated")
             self.inbound.append(d)
@@ -512,7 +517,9 @@ CHECK = Check(
         "truncated / extended / glued datagrams must be rejected only where the one-shot path documents it (struct and fixed-size, "
         "FileBased, default abc.deserialize, Pickle, compressors); for line/JSON/base64/identity serializers the only demand is that the "
         "result equals the result of that datagram alone",
-        "Pickle only ever sees generated bytes through a restricted unpickler (find_class refused)",
+        "Pickle only ever sees generated bytes through a restricted unpickler (find_class refused); malformed datagrams whose PUT/LONG_BINPUT "
+        "memo index exceeds 100000 are replaced (CPython's C unpickler would allocate 16*index bytes: stdlib resource bomb, out of the domain); "
+        "Pickle nested in base64/compressor wrappers runs on the pure-Python restricted unpickler for the same reason",
         "loopback UDP layer: a datagram that does not arrive within 2 s is recorded as inconclusive, never as a violation; all other "
         "layers use in-memory transports and no clock",
         "cbor/msgpack serializers and the trio backend cannot be imported offline",
